@@ -119,14 +119,14 @@ T('C04', 'twin-span-else', TRACK, "            if self.__POINTS[k].timestamp < t
   "            ts = self.__POINTS[k].timestamp\n            if ts < tini or ts > tfin:\n                continue\n            track.addObs(self.__POINTS[k].copy())")
 
 # ---------------------------------------------------------------- C05
-M('C05', 'temporal-weights-unnormalised', INT, "        wbwd = (tfwd - t) / (tfwd - tbwd)\n        wfwd = (t - tbwd) / (tfwd - tbwd)", "        wbwd = (tfwd - t) / (tfwd - tbwd)\n        wfwd = (t - tbwd)", 'C05.W')
-M('C05', 'temporal-wrong-fix', INT, "        pt_bwd = track.getObs(running_id - 1)\n        pt_fwd = track.getObs(running_id)\n        tbwd = T[running_id - 1]", "        pt_bwd = track.getObs(running_id)\n        pt_fwd = track.getObs(running_id)\n        tbwd = T[running_id - 1]", 'C05.W')
+M('C05', 'temporal-weights-unnormalised', INT, "        wbwd = (tfwd - t) / (tfwd - tbwd)\n        wfwd = (t - tbwd) / (tfwd - tbwd)", "        wbwd = (tfwd - t) / (tfwd - tbwd)\n        wfwd = (t - tbwd)", 'C05.G')
+M('C05', 'temporal-wrong-fix', INT, "        pt_bwd = track.getObs(running_id - 1)\n        pt_fwd = track.getObs(running_id)\n        tbwd = T[running_id - 1]", "        pt_bwd = track.getObs(running_id)\n        pt_fwd = track.getObs(running_id)\n        tbwd = T[running_id - 1]", 'C05.G')
 M('C05', 'temporal-y-uses-x', INT, "        Y = wbwd * pt_bwd.position.getY() + wfwd * pt_fwd.position.getY()\n        Z = wbwd * pt_bwd.position.getZ() + wfwd * pt_fwd.position.getZ()\n\n        pi = Obs(ENUCoords(X, Y, Z), ObsTime.readUnixTime(t))",
-  "        Y = wbwd * pt_bwd.position.getY() + wfwd * pt_fwd.position.getX()\n        Z = wbwd * pt_bwd.position.getZ() + wfwd * pt_fwd.position.getZ()\n\n        pi = Obs(ENUCoords(X, Y, Z), ObsTime.readUnixTime(t))", 'C05.W')
-M('C05', 'admission-first', INT, "        if t <= tini:\n            continue", "        if t < tini:\n            continue", 'C05.A')
-M('C05', 'scan-nonstrict', INT, "        while T[running_id] < t:\n            running_id += 1", "        while T[running_id] <= t:\n            running_id += 1", 'C05.A')
-M('C05', 'spatial-count', INT, "    sfin = S[len(S) - 1]\n    N = (int)((sfin - sini) / ds)\n", "    sfin = S[len(S) - 1]\n    N = (int)((sfin - sini) / ds) + 1\n", 'C05.L', count=2)
-M('C05', 'spatial-abscissa', INT, "        s = k * ds + sini\n", "        s = (k - 1) * ds + sini\n", 'C05.L')
+  "        Y = wbwd * pt_bwd.position.getY() + wfwd * pt_fwd.position.getX()\n        Z = wbwd * pt_bwd.position.getZ() + wfwd * pt_fwd.position.getZ()\n\n        pi = Obs(ENUCoords(X, Y, Z), ObsTime.readUnixTime(t))", 'C05.G')
+M('C05', 'admission-first', INT, "        if t <= tini:\n            continue", "        if t < tini:\n            continue", 'C05.G')
+M('C05', 'scan-nonstrict', INT, "        while T[running_id] < t:\n            running_id += 1", "        while T[running_id] <= t:\n            running_id += 1", 'C05.G')
+M('C05', 'spatial-count', INT, "    sfin = S[len(S) - 1]\n    N = (int)((sfin - sini) / ds)\n", "    sfin = S[len(S) - 1]\n    N = (int)((sfin - sini) / ds) + 1\n", 'C05.G', count=2)
+M('C05', 'spatial-abscissa', INT, "        s = k * ds + sini\n", "        s = (k - 1) * ds + sini\n", 'C05.G')
 T('C05', 'twin-temporal-denominator', INT, "        wbwd = (tfwd - t) / (tfwd - tbwd)\n        wfwd = (t - tbwd) / (tfwd - tbwd)\n\n        X = wbwd * pt_bwd.position.getX() + wfwd * pt_fwd.position.getX()\n        Y = wbwd * pt_bwd.position.getY() + wfwd * pt_fwd.position.getY()\n        Z = wbwd * pt_bwd.position.getZ() + wfwd * pt_fwd.position.getZ()\n\n        pi = Obs(ENUCoords(X, Y, Z), ObsTime.readUnixTime(t))",
   "        span = tfwd - tbwd\n        wfwd = (t - tbwd) / span\n        wbwd = 1 - wfwd\n\n        X = wfwd * pt_fwd.position.getX() + wbwd * pt_bwd.position.getX()\n        Y = wbwd * pt_bwd.position.getY() + wfwd * pt_fwd.position.getY()\n        Z = wbwd * pt_bwd.position.getZ() + wfwd * pt_fwd.position.getZ()\n\n        pi = Obs(ENUCoords(X, Y, Z), ObsTime.readUnixTime(t))")
 
